@@ -39,6 +39,13 @@ for d in sorted(glob.glob(V+'/seeded/*/')):
     main=res[0]
     rows.append((name, prop, {0:'MISSED (exit 0)',1:'DETECTED',2:'NO VERDICT (exit 2)'}.get(main[1],str(main[1])), ', '.join(main[2][:4]) + ''.join('; %s:exit%d'%(p,rc) for p,rc,_ in res[1:])))
     print(rows[-1], flush=True)
+prev={}
+if only and os.path.exists(V+'/seeded/RESULTS.md'):
+    for l in open(V+'/seeded/RESULTS.md'):
+        c=[x.strip() for x in l.strip().strip('|').split('|')]
+        if len(c)==4 and c[0] not in ('seed','---'): prev[c[0]]=tuple(c)
+for r in rows: prev[r[0]]=r
+rows=[prev[k] for k in sorted(prev)]
 with open(V+'/seeded/RESULTS.md','w') as f:
     f.write('# Seeded changes vs. checks (regenerate with tools/seed_matrix.py)\n\n| seed | property | result of `./check <property>` | failing obligations |\n|---|---|---|---|\n')
     for r in rows: f.write('| %s | %s | %s | %s |\n'%r)
